@@ -85,6 +85,32 @@ TIvsRow ==
      /\ \A R \in AllRegions(<<Ev.added>>) :
           LET j == FinalIndex(Ev.regions, R) IN
           (IF j < 0 THEN 0 ELSE Lookup(<<d>>, 0, 0, j)) = Given(Ev.added, R)
+\* horizontal metrics at a location: base metric from hmtx (glyphs beyond the long metrics: last advance, own side bearing)
+\* plus the delta the metrics-variation table gives for the glyph: through the advance map (or, without one, row `glyph` of
+\* subtable 0) and through the side-bearing map (without one: no delta). Judged against the compiled table (raw maps, raw
+\* rows) and against the delta sets that were given for each glyph.
+RECURSIVE SumGiven(_, _, _)
+SumGiven(set, coords, k) ==
+  IF k > Len(set) THEN <<0, 1>>
+  ELSE LET sc == RegionScalar(Reg(set[k].region), coords, 1)
+           rest == SumGiven(set, coords, k + 1)
+       IN <<sc[1] * set[k].delta * rest[2] + rest[1] * sc[2], sc[2] * rest[2]>>
+THvar ==
+  /\ IsEvent("hvar")
+  /\ \A i \in DOMAIN Ev.datas : DataOK(Ev.datas[i])
+  /\ LET regs == [j \in DOMAIN Ev.regions |-> Reg(Ev.regions[j])] IN
+     \A p \in DOMAIN Ev.probes :
+        LET pr == Ev.probes[p] IN
+        \A g \in 0..(Ev.ng - 1) :
+           LET ai == IF Ev.adv_map.none THEN <<0, g>> ELSE MapEntry(Ev.adv_map, g)
+               da == pr.adv[g + 1] - HmtxAdvance(Ev.long, g)
+               dl == pr.lsb[g + 1] - HmtxLsb(Ev.long, Ev.lsbs, g)
+           IN /\ WithinRounding(da, SumAt(regs, Ev.datas, ai[1], ai[2], pr.coords, 1))
+              /\ WithinRounding(da, SumGiven(Ev.adv_sets[g + 1], pr.coords, 1))
+              /\ IF Ev.lsb_map.none THEN dl = 0
+                 ELSE LET li == MapEntry(Ev.lsb_map, g) IN
+                      /\ WithinRounding(dl, SumAt(regs, Ev.datas, li[1], li[2], pr.coords, 1))
+                      /\ WithinRounding(dl, SumGiven(Ev.lsb_sets[g + 1], pr.coords, 1))
 TInit == l = 1
-TraceSpec == TInit /\ [][TIvs \/ TNorm \/ TAvar \/ TIvsRead \/ TIvsRow]_l
+TraceSpec == TInit /\ [][TIvs \/ TNorm \/ TAvar \/ TIvsRead \/ TIvsRow \/ THvar]_l
 =============================================================================
